@@ -394,8 +394,14 @@ package sftp
 //@   ensures result == nil ==> ghost.hsVersion == 3 && ghost.hsType == sshFxpVersion
 // (a session is established only if the peer's first packet is a VERSION packet carrying protocol version 3)
 
-//@ func (*File).readAt$2
-//@   property C20
+//@ func (resChanPool).Get
+//@   property C20, C01
+//@   channel global:type:chan_sftp.result invariant m != nil
+//@   ensures result != nil
+
+//@ func (resChanPool).Put
+//@   property C20, C01
+//@   requires ch != nil
 
 //@ func (*bufPool).Get
 //@   property C20
@@ -1367,3 +1373,49 @@ package sftp
 //@   assert before call close#1: locked(&c.Mutex) && ghost.bSent == ghost.bRepl
 // (every in-flight registration receives exactly one connection-lost result and is replaced by a private channel
 //  before the next one is handled, all under the lock that putChannel / getChannel take; closed is closed under it)
+
+// ---------------------------------------------------------------------------
+// concurrent transfer paths (client.go): slicer / workers / reducer
+// attr(ch, lo), attr(ch, hi): ghost attributes of the work and error channels of one transfer: the byte range
+// [lo, hi] of the file that the transfer covers. They are fixed when the channel is made.
+
+//@ ghost var gmin int64
+
+//@ func (*File).readAt
+//@   property C01, C13, C12
+//@   results n, err
+//@   requires fileOK(f) && off >= 0 && off <= 0x3fffffffffffffff && len(b) <= 0x3fffffffffffffff
+//@   assume after make errCh#1: attr(ret, lo) == off && attr(ret, hi) == off + int64(len(b))
+//@   assume after make workCh#1: attr(ret, lo) == off && attr(ret, hi) == off + int64(len(b))
+//@   channel errCh invariant m.err != nil && attr(ch, lo) <= m.off && m.off <= attr(ch, hi)
+//@   update after make errCh#1: ghost.gmin = math.MaxInt64
+//@   loop 2 ghost gmin
+//@   update after recv errCh#1: ghost.gmin = ite(ret1, min(ghost.gmin, ret0.off), ghost.gmin)
+//@   loop 2 invariant firstErr.off == ghost.gmin && (firstErr.err == nil <==> ghost.gmin == math.MaxInt64)
+//@   loop 2 invariant firstErr.err != nil ==> off <= firstErr.off && firstErr.off <= off + int64(len(b))
+//@   loop 2 invariant attr(errCh, lo) == off && attr(errCh, hi) == off + int64(len(b))
+//@   ensures f.handle == "" ==> n == 0 && err == os.ErrClosed
+//@   ensures 0 <= n && n <= len(b)
+//@   ensures err == nil ==> n == len(b) || ghost.readStatusOK
+//@   ensures len(b) > f.c.maxPacket && !f.c.disableConcurrentReads && f.handle != "" && err != nil ==> n == int(ghost.gmin - off)
+// (reducer: the error kept is the one with the lowest offset among all chunk errors received, whatever the arrival
+//  order -- the receive is a havoc constrained only by the channel invariant -- and the count is that offset minus
+//  the start, within [0, len(b)])
+
+//@ func (*File).readAt$2
+//@   property C01, C13, C20
+//@   requires attr(errCh, lo) == attr(workCh, lo) && attr(errCh, hi) == attr(workCh, hi)
+//@   channel workCh invariant 0 <= attr(ch, lo) && attr(ch, hi) <= 0x7fffffffffffffff - 1 && attr(ch, lo) <= m.off && m.off <= attr(ch, hi) && int64(len(m.b)) <= attr(ch, hi) - m.off && m.res != nil
+//@   channel errCh invariant m.err != nil && attr(ch, lo) <= m.off && m.off <= attr(ch, hi)
+//@   channel errCh nodrop
+//@   loop 1 invariant attr(errCh, lo) == attr(workCh, lo) && attr(errCh, hi) == attr(workCh, hi)
+//@   assert before call copy#1: arg0 == packet.b
+
+//@ func (*File).readAt$1
+//@   property C01, C13
+//@   requires fileOK(f) && off >= 0 && off <= 0x3fffffffffffffff && len(old(b)) <= 0x3fffffffffffffff
+//@   requires attr(workCh, lo) == off && attr(workCh, hi) == off + int64(len(old(b)))
+//@   channel workCh invariant 0 <= attr(ch, lo) && attr(ch, hi) <= 0x7fffffffffffffff - 1 && attr(ch, lo) <= m.off && m.off <= attr(ch, hi) && int64(len(m.b)) <= attr(ch, hi) - m.off && m.res != nil
+//@   loop 1 invariant fileOK(f) && chunkSize == f.c.maxPacket && samearray(b, old(b)) && len(b) <= len(old(b)) && offset == off + int64(len(old(b)) - len(b))
+//@   loop 1 invariant attr(workCh, lo) == off && attr(workCh, hi) == off + int64(len(old(b)))
+//@   assert before call (*clientConn).dispatchRequest#1: arg2.(*sshFxpReadPacket).Offset == uint64(offset) && uint64(arg2.(*sshFxpReadPacket).Len) == uint64(len(rb)) && len(rb) >= 1 && len(rb) <= f.c.maxPacket && arg2.(*sshFxpReadPacket).Handle == f.handle && arg2.(*sshFxpReadPacket).ID == id && arg1 == res
